@@ -10,12 +10,14 @@ import json
 import shutil
 
 from harness import core
+from harness.props import c19 as K          # kernprof in-process cases reuse C19's generator / driver / encoding
 
 PROP = 'C14'
 MODULE = 'Props.C14'
 THEOREMS = ['C14_decision', 'C14_inert', 'C14_history', 'C14_disable_inert',
             'C14_single_profiler_single_atexit', 'C14_outputs_exact', 'C14_expected_outputs_meaning',
-            'C14_kernprof_handoff', 'C14_nonvacuous']
+            'C14_kernprof_handoff', 'C14_kernprof_run_leaves_decorator_to_its_own_rules', 'C14_kernprof_nonvacuous',
+            'C14_nonvacuous']
 LEVEL = 'proof'
 DRIVER = 'harness.drivers.c14'
 
@@ -112,6 +114,10 @@ def py_spec(kind, c, o):
         if o['err'] or o['seen'] != exp or not o['sizes_ok']:
             return 'show() wrote %r (err=%s), switched on: %r' % (o['seen'], o['err'], exp)
         return None
+    if kind == 'kernprof':
+        return kp_spec(c, o)
+    if kind == 'subkp':
+        return kp_sub_spec(c, o)
     if kind == 'sub':
         ops = sub_ops(c)
         exp, active, prefix = spec_history(c['env'], ['prog.py'] + c['args'], ops)
@@ -142,6 +148,150 @@ def sub_ops(c):
         ops.append(['enable', None])
     ops.append(['decorate', None])
     return ops
+
+
+# ---- under kernprof: in-process runs of the real kernprof.main around ordinary use ------------------------
+def kp_cases(tier):
+    thorough = tier == 'thorough'
+    init0 = dict(argv=['host', 'x'], argv_rebound=False, path_rebound=False, profile='undecided')
+    setups = [(None, []), ([], []), (['enable'], []), (['enable', 'decorate'], []), (['decorate'], ['--line-profile']),
+              (['decorate'], []), (['disable'], []), (['decorate', 'enable'], ['--line_profile', 'z'])]
+    outcomes = ['ret', 'exc', 'exit'] + (['kbd', 'excin'] if thorough else [])
+    cases = []
+
+    def run(l, b, outcome, su=None, sargs=(), m=False):
+        return K.make_run(l, b, m, su is not None, None, 'rel', [], list(sargs), outcome, 0, 0, 0, setup_uses=su)
+    for l, b in ((True, False), (False, True), (False, False)):
+        for outcome in outcomes:
+            if outcome == 'excin' and not (l or b):
+                continue
+            for su, sargs in setups:
+                cases.append(dict(kind='kernprof', init=init0, runs=[run(l, b, outcome, su, sargs)]))
+            # the host had switched the decorator on / off itself before the run
+            for pre in (['enable'], ['enable', 'decorate'], ['disable'], ['decorate']):
+                r = run(l, b, outcome)
+                r['pre_use'] = pre
+                cases.append(dict(kind='kernprof', init=init0, runs=[r]))
+            # two runs: the first one's setup file enables, the second ends as `outcome`
+            r1, r2 = run(True, False, 'ret', ['enable']), run(l, b, outcome, m=thorough and outcome == 'ret')
+            r2['pre_use'] = ['decorate']
+            cases.append(dict(kind='kernprof', init=init0, runs=[r1, r2]))
+    return cases
+
+
+def kp_expected(case, o):
+    """stand-alone rules applied to the ordinary uses alone -> expected (enabled, profile) after every step and the
+    answer of every decoration; steps in driver order: pre-uses, run, ..., final host decoration"""
+    st = dict(enabled=None, profile=None, created=0)
+    if case['init']['profile'] == 'disabled':
+        st['enabled'] = False
+    host_argv = o['before']['argv']
+
+    def use(op, argv):
+        if op == 'enable':
+            if st['profile'] is None:
+                st['created'] += 1
+                st['profile'] = ['own', st['created']]
+            st['enabled'] = True
+            return 0
+        if op == 'disable':
+            st['enabled'] = False
+            return 0
+        if st['enabled'] is None:
+            if requested(None, argv):
+                use('enable', argv)
+            else:
+                st['enabled'] = False
+        return 1 if st['enabled'] else 0
+    steps = []
+    for r in case['runs']:
+        for op in r.get('pre_use', []):
+            code = use(op, host_argv)
+            steps.append(('use ' + op, st['enabled'], st['profile'], code))
+        for op in r.get('setup_uses', []):
+            use(op, r['new_argv'])
+        steps.append(('run ' + ' '.join(r['args']), st['enabled'], st['profile'], 0))
+    final = use('decorate', host_argv)
+    return steps, final
+
+
+def kp_spec(case, o):
+    steps, final = kp_expected(case, o)
+    got = []
+    for ob in o['seen']:
+        for u in ob.get('pre', []):
+            got.append((u['enabled'], u['profile'], u['code']))
+        got.append((ob['enabled'], ob['profile'], 0))
+    for (what, en, pr, code), (gen, gpr, gcode) in zip(steps, got):
+        if (en, pr) != (gen, gpr):
+            return 'after `%s` line_profiler.profile is (enabled=%r, _profile=%r); by its own rules (ordinary uses alone) it is (enabled=%r, _profile=%r)' % (
+                what, gen, gpr, en, pr)
+        if what == 'use decorate' and code != gcode:
+            return '`%s` answered %r, the rules say %r' % (what, gcode, code)
+    if o['use'] != final:
+        return 'a decoration after the kernprof run(s) answered %s, the stand-alone rules say %s' % (
+            o['use_err'] or ['its argument', 'a wrapper'][min(o['use'], 1)], ['its argument', 'a wrapper'][final])
+    return None
+
+
+def q_kp(case, o):
+    init, b = case['init'], o['before']
+    st = '(mk_state %s %s %s %s %s 0)' % (K.q_strs(b['argv']), core.coq_bool(init['argv_rebound']), K.q_strs(b['path']),
+                                         core.coq_bool(init['path_rebound']), K.q_gp(init))
+    acts, obs = [], []
+    for r, ob in zip(case['runs'], o['seen']):
+        for op, u in zip(r.get('pre_use', []), ob.get('pre', [])):
+            acts.append(K.COQ_USE[op])
+            obs.append('(%s, %s)' % (K.q_seen(u, b['threads']), core.coq_z(u['code'])))
+        acts.append('ARun ' + K.q_run(r))
+        obs.append('(%s, 0)' % K.q_seen(ob, b['threads']))
+    return '(kp_case %s %s %s %s)' % (st, core.coq_list(acts), core.coq_list(obs), core.coq_z(o['use']))
+
+
+KP_HEADER = '''From LP Require Import Prelude.Py Explicit.Base Gen.GlobalProfiler Cli.MainEffects Cli.MainEffectsProofs.
+Definition kp_case (s : St) (acts : list act) (os : list (seen * Z)) (use : Z) : bool * bool :=
+  (case_model_ok s acts os
+   && Z.eqb (use_code (gp (exec_acts current s acts)) (cur (argv (exec_acts current s acts)))) use,
+   decorator_spec_ok acts (cur (argv s)) (gp s) os
+   && Z.eqb (use_code (user_gp acts (cur (argv s)) (gp s)) (cur (argv s))) use).
+'''
+
+
+def kp_sub_cases(tier):
+    out = []
+    wcs = [ALL_WC[i] for i in ((14, 15, 7, 9) if tier != 'thorough' else range(16))]
+    for wc in wcs:
+        out.append(dict(how='enable', prefix='setup_prof', env=None, args=[], wc=wc))
+    out.append(dict(how='decorate', prefix=None, env='1', args=[], wc=ALL_WC[14]))
+    out.append(dict(how='decorate', prefix=None, env=None, args=['--line-profile'], wc=ALL_WC[13]))
+    out.append(dict(how='decorate', prefix=None, env='off', args=['x'], wc=ALL_WC[15]))
+    if tier == 'thorough':
+        out.append(dict(how='enable', prefix='bench.v2', env='0', args=['a'], wc=ALL_WC[15]))
+    return out
+
+
+def kp_sub_ops(c):
+    return ([['enable', c['prefix']]] if c['how'] == 'enable' else []) + [['decorate', None]]
+
+
+def kp_sub_spec(c, o):
+    if o['rc'] != 0 or o['obs'] is None or not o['kernprof_out']:
+        return 'kernprof run failed rc=%s %s' % (o['rc'], o['stderr'][-200:])
+    exp, active, prefix = spec_history(c['env'], ['script.py'] + c['args'], kp_sub_ops(c))
+    if o['obs']['same_h'] != (not active):
+        return 'decoration in the setup file returned-its-argument = %r, demanded %r' % (o['obs']['same_h'], not active)
+    want = expected_seen(c['wc'], prefix, o['ts']) if active else []
+    if o['seen'] != want or o['traceback']:
+        return 'under kernprof -s: at exit %r appeared (traceback on stderr: %s), demanded %r' % (o['seen'], o['traceback'], want)
+    return None
+
+
+def q_kp_sub(c, o):
+    if o['rc'] != 0 or o['obs'] is None or o['traceback']:
+        return '(false, false)'
+    argv = core.coq_list([core.coq_str(a) for a in ['script.py'] + c['args']])
+    return '(sub_case %s %s %s %s %s %s %s)' % (q_ostr(c['env']), argv, q_ops(kp_sub_ops(c)), q_wc(c['wc']), core.coq_str(o['ts']),
+                                               core.coq_list([core.coq_bool(o['obs']['same_h'])]), q_seen(o['seen']))
 
 
 # ---- case generation -----------------------------------------------------------------------
@@ -301,11 +451,16 @@ def q_row(kind, c, o):
 def run_driver(impl, cases, tmp):
     payload = dict(tmp=str(tmp),
                    hist=cases['hist'] + [dict(c, ops=[['overwrite', None]] + c['ops']) for c in cases['handoff']] + cases['model_only'],
-                   show=cases['show'], sub=cases['sub'])
+                   show=cases['show'], sub=cases['sub'], subkp=cases.get('subkp', []))
     out = core.run_impl(impl, DRIVER, payload, timeout=1500)
     nh, no = len(cases['hist']), len(cases['handoff'])
+    kp = []
+    if cases.get('kernprof'):
+        ktmp = (tmp / 'kp')
+        ktmp.mkdir(parents=True, exist_ok=True)
+        kp = K.run_driver(impl, cases['kernprof'], ktmp.resolve())
     return dict(hist=out['hist'][:nh], handoff=out['hist'][nh:nh + no], model_only=out['hist'][nh + no:],
-                show=out['show'], sub=out['sub'])
+                show=out['show'], sub=out['sub'], subkp=out.get('subkp', []), kernprof=kp)
 
 
 def run(tier, seed):
@@ -319,22 +474,26 @@ def run(tier, seed):
     tmp = core.SCRATCH_ROOT / 'tmp' / 'c14'
     tmp.mkdir(parents=True, exist_ok=True)
     cases = gen_cases(tier, rnd)
+    cases['kernprof'] = kp_cases(tier)
+    cases['subkp'] = kp_sub_cases(tier)
     try:
         out = run_driver(impl, cases, tmp)
 
         def search(budget):
             c2 = gen_cases('thorough', core.rng(seed + 1, PROP))
+            c2['kernprof'] = kp_cases('thorough')
+            c2['subkp'] = kp_sub_cases('thorough')
             o2 = run_driver(impl, c2, tmp)
-            for kind in ('hist', 'handoff', 'show', 'sub'):
+            for kind in ('hist', 'handoff', 'show', 'sub', 'kernprof', 'subkp'):
                 for c, o in zip(c2[kind], o2[kind]):
                     why = py_spec(kind, c, o)
                     if why:
-                        return dict(case=dict(kind=kind, **c), impl=o, why=why + ' (search)', finding=None)
+                        return dict(case=dict(c, kind=kind), impl=o, why=why + ' (search)', finding=None)
             return None
         res.search = search
 
         flat = []          # (kind, case, observation)
-        for kind in ('hist', 'handoff', 'model_only', 'show', 'sub'):
+        for kind in ('hist', 'handoff', 'model_only', 'show', 'sub', 'subkp', 'kernprof'):
             for c, o in zip(cases[kind], out[kind]):
                 flat.append((kind, c, o))
         model_ok = not any('build of' in f or 'translator refused' in f for f in res.obl['failures'])
@@ -342,7 +501,14 @@ def run(tier, seed):
         seen_fail = set()
         if model_ok:
             rows = []      # (index into flat, coq text)
+            kp_rows = []
             for i, (kind, c, o) in enumerate(flat):
+                if kind == 'kernprof':
+                    kp_rows.append((i, q_kp(c, o)))
+                    continue
+                if kind == 'subkp':
+                    rows.append((i, q_kp_sub(c, o)))
+                    continue
                 strs = [c.get('env')] + list(c.get('argv', [])) + [x[1] for x in c.get('ops', [])] + [o.get('prefix')] if kind != 'sub' \
                     else [c['env']] + c['args']
                 if not all(is_ascii(s) for s in strs if s is None or isinstance(s, str)):
@@ -357,6 +523,14 @@ def run(tier, seed):
                 body += 'Eval vm_compute in (false_indices (map fst rows)).\nEval vm_compute in (false_indices (map snd rows)).\n'
                 bodies.append(body)
             shards = core.run_shards('c14', 'From LP Require Import Prelude.Py Explicit.Base Gen.GlobalProfiler Explicit.GlobalProfiler.', bodies)
+            kp_chunks = core.chunks(kp_rows, 120)
+            kp_bodies = []
+            for ch in kp_chunks:
+                body = 'Definition rows : list (bool * bool) := [\n' + ';\n'.join(t for _, t in ch) + '].\n'
+                body += 'Eval vm_compute in (false_indices (map fst rows)).\nEval vm_compute in (false_indices (map snd rows)).\n'
+                kp_bodies.append(body)
+            shards += core.run_shards('c14kp', KP_HEADER, kp_bodies)
+            chunks = chunks + kp_chunks
             for k, sres in enumerate(shards):
                 if sres[0] != 'ok' or len(sres[1]) != 2:
                     res.infra_errors.append('shard %d failed: %s' % (k, str(sres[1])[-600:]))
@@ -364,13 +538,13 @@ def run(tier, seed):
                 mism, sfail = sres[1]
                 for j in mism:
                     kind, c, o = flat[chunks[k][j][0]]
-                    res.mismatches.append(dict(case=dict(kind=kind, **c), impl=o, model='differs (Gen/GlobalProfiler.v run / show model)'))
+                    res.mismatches.append(dict(case=dict(c, kind=kind), impl=o, model='differs (Gen/GlobalProfiler.v run / show model)'))
                 for j in sfail:
                     i = chunks[k][j][0]
                     kind, c, o = flat[i]
                     seen_fail.add(i)
                     why = (py_spec(kind, c, o) if kind != 'model_only' else None) or 'Coq-side property predicate is false'
-                    res.spec_fails.append(dict(case=dict(kind=kind, **c), impl=o, why=why, finding=None))
+                    res.spec_fails.append(dict(case=dict(c, kind=kind), impl=o, why=why, finding=None))
         n_req = n_notreq = n_active = 0
         distinct = set()
         kinds = {}
@@ -385,20 +559,26 @@ def run(tier, seed):
                 n_active += spec_history(c['env'], c['argv'], c['ops'])[1]
                 if any(k == 'decorate' for k, _ in c['ops']):
                     distinct.add((kind, c['env'], tuple(c['argv']), json.dumps(c['ops'])))
-            elif kind in ('show', 'sub'):
+            elif kind in ('show', 'sub', 'subkp'):
                 distinct.add((kind, json.dumps(c, sort_keys=True)))
+            elif kind == 'kernprof':
+                distinct.add((kind, json.dumps([[r['args'], r.get('pre_use'), r.get('setup_uses')] for r in c['runs']])))
             if kind == 'model_only':
                 continue
             why = py_spec(kind, c, o)
             if why and i not in seen_fail:
-                res.spec_fails.append(dict(case=dict(kind=kind, **c), impl=o, why=why, finding=None))
+                res.spec_fails.append(dict(case=dict(c, kind=kind), impl=o, why=why, finding=None))
         res.coverage = dict(
             evaluations=len(flat), distinct_nontrivial=len(distinct),
             rule='non-trivial = a history with at least one decoration (distinct by world and op list), a show() '
                  'configuration, or a whole-interpreter run; complete enumeration of %d env spellings x %d argv lists '
                  '(decision table), of all enable/enable(prefix)/disable/decorate histories up to length %d under %d worlds, '
                  'of the 16 write_config subsets, of all user histories up to length %d after a kernprof hand-over; '
-                 'plus seeded random histories up to length 9'
+                 'plus seeded random histories up to length 9; plus, under kernprof: in-process runs of the real kernprof.main (3 modes x '
+                 'program outcomes x setup files that enable / disable / decorate, with and without --line-profile among the '
+                 'program\'s arguments, host uses before the run, two runs in a row) each followed by a host decoration, and '
+                 '`python -m kernprof -l -s setup.py script.py` interpreter runs whose setup file asks for explicit profiling '
+                 '(files at exit)'
                  % (len(ENVS), len(ARGVS), 5 if tier == 'thorough' else 4, 8 if tier == 'thorough' else 4,
                     4 if tier == 'thorough' else 3),
             exhaustive=True, case_kinds=kinds, history_length_histogram=lens,
@@ -417,7 +597,8 @@ def run(tier, seed):
                 'the recording atexit / counting LineProfiler factory in the driver',
                 'hand-modelled, tied by correspondence only: GlobalProfiler.show (all 16 subsets x prefixes, real files)',
                 'interpreter exit runs each registered hook once (checked by the subprocess cases)',
-                'env values are compared as byte strings; non-ASCII values are checked python-side only'])
+                'env values are compared as byte strings; non-ASCII values are checked python-side only',
+                'under kernprof: the hand effect model of kernprof.main (Cli/MainEffects.v, C19) and C19\'s in-process driver'])
         res.assumptions = ['os.environ / sys.argv are read at the first decoration and not changed concurrently',
                            'the decorated object is handed to the profiler as-is: what LineProfiler.__call__ does with it is C03/C16',
                            'output_prefix, write_config are only changed through enable(output_prefix=...) / before exit',
@@ -435,7 +616,7 @@ def replay(path):
     tmp = core.SCRATCH_ROOT / 'tmp' / 'c14r'
     tmp.mkdir(parents=True, exist_ok=True)
     try:
-        cases = dict(hist=[], handoff=[], model_only=[], show=[], sub=[])
+        cases = dict(hist=[], handoff=[], model_only=[], show=[], sub=[], subkp=[], kernprof=[])
         cases[kind] = [c]
         o = run_driver(impl, cases, tmp)[kind][0]
     finally:
